@@ -12,6 +12,9 @@ from vf.lab import schedrun
 ID = "C12"
 LEVEL = "exploration"
 RULE = (
+    "(plus a subrun family: a failing call inside a sub-workflow run through subrun(new_execution=True/False) "
+    "with the real local executor, executed twice on one backend: the second execution must call the "
+    "failing function again) "
     "Generated programs with an uncaught error-raising leaf (raise in a task body, throw task, failing "
     "python function) placed at job depth 1-4 inside containers, operators, cond/seq/map/catch with a "
     "non-matching class/let, next to succeeding siblings, plus the generic program grammar with "
@@ -198,7 +201,52 @@ def oracle(ctx: Ctx, case):
     return info, r1
 
 
+@st.composite
+def subrun_cases(draw):
+    """A failing call inside a sub-workflow run through subrun() (real local executor and
+    sub-scheduler), executed twice on one backend."""
+    v = draw(st.integers(0, 3))
+    fail = ["task", ["list", [["lit", ["int", 770 + v]], ["raise_now", draw(st.sampled_from(["ValueError", "KeyError"])), "boom"]]], {}, {}]
+    body = draw(st.sampled_from([fail, ["list", [["task", ["lit", ["int", v]], {}, {}], fail]], ["op", "add", fail, ["lit", ["int", 1]]]]))
+    ne = draw(st.booleans())
+    sub = ["subrun", body, ne, {}]
+    prog = draw(st.sampled_from([["list", [sub]], ["list", [["task", sub, {}, {}]]]]))
+    return {"family": "subrun", "prog": prog, "marker": 770 + v, "new_execution": ne, "cache": True,
+            "shape": "alone", "rerun": True, "modes": [ne, ne]}
+
+
+def subrun_oracle(ctx: Ctx, case) -> None:
+    import vf_tasks
+    from vf.props import c38
+
+    exp = P.reference(case["prog"])
+    path = dbx.new_db_path()
+    backend = dbx.open_backend(path)
+    try:
+        for attempt in range(2):
+            vf_tasks.CALLS.clear()
+            kind, payload = c38.run_real(case, backend, path, [])
+            calls = sum(1 for name, a in vf_tasks.CALLS if str(case["marker"]) in a)
+            if not P.outcome_in(kind, payload, exp):
+                raise Violation("wrong-outcome:subrun", f"execution {attempt} through subrun gave {kind} {payload!r}; reference "
+                                f"errs={[P.err_key(e) for e in exp.errs[:3]]}", case)
+            if kind == "err" and calls == 0:
+                mode = "new-execution" if case["new_execution"] else "extend"
+                raise Violation(f"failure-replayed:subrun-{mode}",
+                                f"execution {attempt} raised {P.err_key(payload)} without calling the failing function again: the "
+                                f"failure of a sub-workflow run with subrun(new_execution={case['new_execution']}) is replayed from "
+                                f"the cached result of redun.subrun_root_task", case)
+    finally:
+        dbx.discard_backend(backend)
+
+
 def run_case(ctx: Ctx, case) -> None:
+    if case.get("family") == "subrun":
+        try:
+            subrun_oracle(ctx, case)
+        finally:
+            ctx.case(case, labels=["family:subrun", f"new_execution:{case['new_execution']}"], nontrivial=True)
+        return
     info, r1 = {"depth": 0, "rerun": None}, None
     try:
         info, r1 = oracle(ctx, case)
@@ -218,8 +266,12 @@ def run_case(ctx: Ctx, case) -> None:
 def check(ctx: Ctx) -> None:
     C.quiet_logs()
     ctx.given(cases(), lambda c: run_case(ctx, c), ctx.n(150, 6000))
+    ctx.given(subrun_cases(), lambda c: run_case(ctx, c), ctx.n(12, 160), shrink=False)
 
 
 def replay(ctx: Ctx, case) -> None:
     C.quiet_logs()
+    if case.get("family") == "subrun":
+        subrun_oracle(ctx, case)
+        return
     oracle(ctx, case)
